@@ -225,6 +225,7 @@ class Unit:
         closures = {}
         forloops = {}
         forusing = {}
+        foriter = {}
         loopends = {}
         for h, body in secs:
             if h.startswith('ret '):
@@ -236,10 +237,12 @@ class Unit:
             elif h.startswith('loop '):
                 loops[int(h[5:])] = body
             elif h.startswith('forloop '):
-                fm = re.match(r'forloop\s+(\d+)(?:\s+using\s+(\w+))?$', h)
+                fm = re.match(r'forloop\s+(\d+)(?:\s+using\s+(\w+))?(?:\s+iter\s+(.+))?$', h)
                 forloops[int(fm.group(1))] = body
                 if fm.group(2):
                     forusing[int(fm.group(1))] = fm.group(2)
+                if fm.group(3):
+                    foriter[int(fm.group(1))] = fm.group(3)
             elif h.startswith('loopend '):
                 loopends[int(h[8:])] = body
             elif h.startswith('proof '):
@@ -312,6 +315,11 @@ class Unit:
             hm = s.masked[lp['kw'] + 3:lp['open']]
             mi = re.search(r'\bin\b', hm)
             pat, expr = hdr[:mi.start()].strip(), self.apply_rules(hdr[mi.end():].strip(), where)
+            if k in foriter:
+                # the iterated expression uses iterator adapters: replaced by a shim call that yields the
+                # same items (logged); the loop body stays verbatim
+                self.rewrites.append(('R-for iterate %s through %s' % (expr, foriter[k]), where, 1))
+                expr = foriter[k]
             itexpr = '%s(%s)' % (forusing[k], expr) if k in forusing else '(%s).into_iter()' % expr
             new = 'let mut vx_it%d = %s;\nloop\n%s\n{ match vx_it%d.next() { None => { break; } Some(%s) => {' % (
                 k, itexpr, '\n'.join(l for _, l in lines), k, pat)
